@@ -322,6 +322,8 @@ bool tN2kGroupFunctionHandler::ParseAcknowledgeParams(const tN2kMsg &N2kMsg,
   if (N2kMsg.PGN!=126208L) return false;
   int Index=N2kgf_OffsetToParams;
   uint8_t b=N2kMsg.GetByte(Index);
+  // Reserved error codes can not be converted to enums.
+  if ( (b&0x0f)>N2kgfPGNec_ReadOrWriteNotSupported || (b>>4)>N2kgfTPec_RequestNotSupported ) return false;
   PGNErrorCode=(tN2kGroupFunctionPGNErrorCode)(b&0x0f);
   TransmissionOrPriorityErrorCode=(tN2kGroupFunctionTransmissionOrPriorityErrorCode)(b>>4);
 
